@@ -168,12 +168,12 @@ def build_harness(variant):
     with Lock('impl-' + variant):
         if os.path.exists(exe):
             return exe
-        # drop builds of other source states
+        # drop builds of older source states, keeping the three most recent (scratch trees may be checked side by side)
         base = os.path.join(BUILD, 'impl')
         if os.path.isdir(base):
-            for d in os.listdir(base):
-                if d != key:
-                    shutil.rmtree(os.path.join(base, d), ignore_errors=True)
+            others = sorted((d for d in os.listdir(base) if d != key), key=lambda d: os.path.getmtime(os.path.join(base, d)), reverse=True)
+            for d in others[3:]:
+                shutil.rmtree(os.path.join(base, d), ignore_errors=True)
         benv = dict(os.environ, REPO=REPO)
         bvariant = variant
         if variant == 'dyn':        # dynamically linked plain build, for valgrind
